@@ -19,7 +19,12 @@ RULE = ('programs = (a) library behavioural classes the transpiler is pointed at
         'subset (if/elif/else nests, match/case, and/or/not on truth values, comparisons, + - * // % & | ^ << >>, augmented assignment, '
         'locals, integer state, constructor constants, get/put/prepare), clock and propagate kinds, port widths 1..32, (c) the same with one '
         'unsupported or suspect construct injected (ternaries, value-position and/or, for/while, subscripts, tuples, chained comparison, **, '
-        '/, float/str constants, helper calls, attribute name != port name); each accepted program is co-executed for 32-64 cycles; '
+        '/, float/str constants, helper calls, attribute name != port name), (f) a systematic construct corpus: every pattern kind of match '
+        '(capture, capture+guard, as, or, wildcard-as, sequence, class, singleton, mapping, negative/duplicate/attribute values, nested, no '
+        'default) with the subject steered to listed and unlisted values, and the remaining statement/expression forms (walrus, chained '
+        'comparisons, all augmented operators, for/while/break/else, tuple/starred/swap, slices, assert/print/try/del, docstrings, annotated '
+        'assignment, comprehensions, ...), mostly as the last statement of the body; each accepted program is co-executed for 32-64 cycles and '
+        'its text must not read an integer it never assigns; '
         'non-trivial = accepted, compared in-domain on >= 8 steps and >= 2 distinct output or state values seen; distinct by source hash')
 SHARDS = {'quick': 1, 'thorough': 16}
 TIMEOUT = {'quick': 900, 'thorough': 3300}
@@ -72,8 +77,10 @@ FOLDED_CALLS = ["ord('A')", "ord('z')", 'max(3, 9)', 'min(4, 2)', 'max(2, 8, 5)'
 
 
 class PGen:
-    def __init__(self, rnd, kind, cls='main', inject=None):
+    def __init__(self, rnd, kind, cls='main', inject=None, tail=False):
         self.rnd = rnd
+        self.tail = tail          # the injected construct is the last statement of the body (its effect is never overwritten)
+        self.match_info = None    # (input name, listed case values) of an injected match on an input
         self.p = Prog()
         self.p.kind = kind
         self.p.cls = cls
@@ -200,7 +207,7 @@ class PGen:
     def stmt(self, depth):
         rnd, p = self.rnd, self.p
         r = rnd.random()
-        if self.inject and not self.injected and rnd.random() < 0.35:
+        if self.inject and not self.injected and not self.tail and rnd.random() < 0.35:
             return self.injection()
         if depth > 0 and r < 0.3:
             return self.if_stmt(depth)
@@ -336,12 +343,119 @@ class PGen:
             return ['if %s:' % self.cmp(0), '    return', 'self.%s.%s(%s)' % (oa, call, a)]
         if c == 'get_twice_aug_port':
             return ['self.%s.%s(self.%s.get() + 1)' % (oa, call, oa)]
+        out = lambda x: 'self.%s.%s(%s)' % (oa, call, x)
+        i0 = 'self.%s.get()' % p.ins[0][0]
+        if c.startswith('match_'):
+            # the match family: every pattern kind of the language around literal cases on an input; the listed values are drawn,
+            # the input vectors are steered to listed and unlisted values (default / capture branch reached)
+            w0 = p.ins[0][1]
+            listed = sorted(rnd.sample(range(0, min(8, 1 << w0)), min(rnd.randint(1, 3), 1 << w0)))
+            self.match_info = (p.ins[0][0], listed)
+            L = ['match %s:' % i0]
+            for v in listed[:-1]:
+                L += ['    case %d:' % v, '        ' + out(str(rnd.randint(0, 9)))]
+            v = listed[-1]
+            k1, k2 = rnd.randint(1, 9), rnd.randint(10, 19)
+            tail = {
+                'match_capture': ['    case %d:' % v, '        ' + out(k1), '    case other:', '        ' + out('other + %d' % k2)],
+                'match_capture_only': ['    case other:', '        ' + out('other + %d' % k2)],
+                'match_capture_unused': ['    case %d:' % v, '        ' + out(k1), '    case other:', '        ' + out(k2)],
+                'match_capture_state': ['    case %d:' % v, '        ' + out(k1), '    case other:', '        %s = other + %d' % (tgt or 'tq', k2), '        ' + out(tgt or 'tq')],
+                'match_capture_guard': ['    case other if other > %d:' % v, '        ' + out('other + %d' % k2), '    case _:', '        ' + out(k1)],
+                'match_as': ['    case %d as mv:' % v, '        ' + out('mv + %d' % k2), '    case _:', '        ' + out(k1)],
+                'match_or_as': ['    case (%d | %d) as mv:' % (v, v + 1), '        ' + out('mv + %d' % k2), '    case _:', '        ' + out(k1)],
+                'match_wild_as': ['    case %d:' % v, '        ' + out(k1), '    case _ as mv:', '        ' + out('mv + %d' % k2)],
+                'match_seq': ['    case [x, y]:', '        ' + out('x + y'), '    case %d:' % v, '        ' + out(k1), '    case _:', '        ' + out(k2)],
+                'match_class': ['    case %d:' % v, '        ' + out(k1), '    case int():', '        ' + out(k2)],
+                'match_class_capture': ['    case %d:' % v, '        ' + out(k1), '    case int(mv):', '        ' + out('mv + %d' % k2)],
+                'match_singleton': ['    case True:', '        ' + out(k2), '    case %d:' % v, '        ' + out(k1), '    case _:', '        ' + out(k1 + 1)],
+                'match_mapping': ['    case {}:', '        ' + out(k2), '    case %d:' % v, '        ' + out(k1), '    case _:', '        ' + out(k1 + 1)],
+                'match_neg_value': ['    case -1:', '        ' + out(k2), '    case %d:' % v, '        ' + out(k1), '    case _:', '        ' + out(k1 + 1)],
+                'match_dup_value': ['    case %d:' % v, '        ' + out(k1), '    case %d:' % v, '        ' + out(k2), '    case _:', '        ' + out(k1 + 1)],
+                'match_attr_value': ['    case %s:' % (('self.%s' % p.consts[0][0]) if p.consts else str(v + 8)), '        ' + out(k2), '    case %d:' % v, '        ' + out(k1), '    case _:', '        ' + out(k1 + 1)],
+                'match_no_default': ['    case %d:' % v, '        ' + out(k1)],
+                'match_default_pass': ['    case %d:' % v, '        ' + out(k1), '    case _:', '        pass'],
+                'match_nested': ['    case %d:' % v, '        match %s:' % ('self.%s.get()' % p.ins[-1][0]), '            case 0:', '                ' + out(k1),
+                                 '            case _:', '                ' + out(k2), '    case _:', '        ' + out(k1 + 1)],
+                'match_expr_subject': None,
+            }[c]
+            if c == 'match_expr_subject':
+                L = ['match (%s + 1) & 3:' % i0, '    case 0:', '        ' + out(k1), '    case 1:', '        ' + out(k2), '    case _:', '        ' + out(k1 + 1)]
+                tail = []
+            pre = ['tq = 0'] if (c == 'match_capture_state' and not tgt) else []
+            return pre + L + tail
+        if c == 'aug_other':
+            op = rnd.choice(['<<=', '>>=', '//=', '%='])
+            return ['tq = %s' % a, 'tq %s %d' % (op, rnd.randint(1, 3)), out('tq')]
+        if c == 'ternary_cond':
+            return ['if (%s if %s else %s):' % (a, self.cmp(0), b), '    ' + out('1'), 'else:', '    ' + out('2')]
+        if c == 'not_in':
+            return ['if %s not in (1, 2):' % i0, '    ' + out('1'), 'else:', '    ' + out('2')]
+        if c == 'is_not':
+            return ['if %s is not None:' % i0, '    ' + out('1'), 'else:', '    ' + out('2')]
+        if c == 'assert':
+            return ['assert %s >= 0' % i0, out(a)]
+        if c == 'print':
+            return ['print(%s)' % a, out(a)]
+        if c == 'try':
+            return ['try:', '    ' + out(a), 'except Exception:', '    ' + out(b)]
+        if c == 'del':
+            return ['tq = %s' % a, out('tq'), 'del tq']
+        if c == 'for_break':
+            return ['acc = 0', 'for j in range(4):', '    if j == 2:', '        break', '    acc = acc + %s' % a, out('acc')]
+        if c == 'for_else':
+            return ['acc = 0', 'for j in range(2):', '    acc = acc + 1', 'else:', '    acc = acc + %s' % a, out('acc')]
+        if c == 'while_false':
+            return ['tq = %s' % a, 'while False:', '    tq = tq + 1', out('tq')]
+        if c == 'if_const':
+            return ['if True:', '    ' + out(a), 'else:', '    ' + out(b)]
+        if c == 'starred':
+            return ['ta, *tb = %s, 2, 3' % a, out('ta')]
+        if c == 'swap':
+            return ['ta = %s' % a, 'tb = %s' % b, 'ta, tb = tb, ta', out('ta')]
+        if c == 'slice':
+            return ['tb = [1, 2, 3][0:2]', out(a)]
+        if c == 'chained_cmp3':
+            return ['if %s <= %s < %s:' % (a, i0, b), '    ' + out('1'), 'else:', '    ' + out('2')]
+        if c == 'chained_eq':
+            return ['if %s == %s == 1:' % (i0, 'self.%s.get()' % p.ins[-1][0]), '    ' + out('1'), 'else:', '    ' + out('2')]
+        if c == 'docstring':
+            return ["'''sets the output'''", out(a)]
+        if c == 'ann_assign':
+            return ['tq: int = %s' % a, out('tq')]
+        if c == 'unary_plus':
+            return [out('+%s' % a)]
+        if c == 'comprehension':
+            return ['tq = sum([x for x in range(3)])', out('tq + %s' % a)]
+        if c == 'width_call':
+            return [out('self.%s.getWidth()' % p.ins[0][0])]
+        if c == 'local_branch_only':
+            # a local assigned in one branch and read in the same branch of a later statement (never read unassigned in Python)
+            cnd = self.cmp(0)
+            return ['if %s:' % cnd, '    tz = %s' % a, 'else:', '    ' + out(b), 'if %s:' % cnd, '    ' + out('tz')]
+        if c == 'divmod':
+            return ['tq, tr = divmod(%s, 3)' % a, out('tq + tr')]
+        if c == 'fstring':
+            return ["ts = f'{1}'", out(a)]
+        if c == 'bit_length':
+            return [out('(%s).bit_length()' % i0)]
         raise ValueError(c)
 
 
 INJECTIONS = ['boolop_value', 'ternary_rhs', 'ternary_nested', 'ternary_call', 'for', 'while', 'subscript', 'tuple', 'chained_cmp', 'pow',
               'truediv', 'float', 'str', 'helper_call', 'abs_call', 'is', 'in', 'lambda', 'walrus', 'multi_target', 'nested_func',
               'int_call', 'bool_const', 'neg_const', 'big_const', 'match_guard', 'match_or', 'return', 'get_twice_aug_port']
+
+# the systematic construct corpus (own workload, see run_check): every pattern kind of `match`, and the statement/expression forms of
+# the language that the grammar of the supported subset does not produce; each is either refused or judged like any accepted program
+MATCH_FAMILY = ['match_capture', 'match_capture_only', 'match_capture_unused', 'match_capture_state', 'match_capture_guard', 'match_as',
+                'match_or_as', 'match_wild_as', 'match_seq', 'match_class', 'match_class_capture', 'match_singleton', 'match_mapping',
+                'match_neg_value', 'match_dup_value', 'match_attr_value', 'match_no_default', 'match_default_pass', 'match_nested',
+                'match_expr_subject', 'match_guard', 'match_or']
+CONSTRUCTS = MATCH_FAMILY + ['aug_other', 'ternary_cond', 'not_in', 'is_not', 'assert', 'print', 'try', 'del', 'for_break', 'for_else',
+                             'while_false', 'if_const', 'starred', 'swap', 'slice', 'chained_cmp3', 'chained_eq', 'docstring', 'ann_assign',
+                             'unary_plus', 'comprehension', 'width_call', 'local_branch_only', 'divmod', 'fstring', 'bit_length',
+                             'walrus', 'tuple', 'chained_cmp', 'for', 'while', 'multi_target', 'lambda', 'in', 'is', 'return']
 
 
 # --------------------------------------------------------------------------- loading and running
@@ -371,12 +485,31 @@ class Result:
         self.values = set()
         self.text = None
         self.diags = []
+        self.unassigned = []
 
 
 def transpile(obj):
     import py4hw
     with muted():
         return py4hw.VerilogGenerator(obj).getVerilogForHierarchy()
+
+
+def never_assigned_reads(text):
+    """Static clause on accepted text: an `integer` the module declares and uses but never assigns anywhere (initial block included)
+    can only be read -- its value is not something the Python method computes. Returns the list of such names."""
+    import re
+    bad = []
+    for seg in text.split('endmodule'):
+        for x in re.findall(r'^\s*integer\s+(\w+)\s*;', seg, re.M):
+            body = re.sub(r'^\s*integer\s+%s\s*;' % re.escape(x), '', seg, flags=re.M)
+            if not re.search(r'(?<![\w.$])%s(?![\w$])' % re.escape(x), body):
+                continue        # declared, never used
+            if re.search(r'(?<![\w.$])%s\s*=(?!=)' % re.escape(x), body):
+                continue        # blocking assignment somewhere
+            if re.search(r'(^|;|:|\bbegin\b|\belse\b)\s*%s\s*<=' % re.escape(x), body, re.M):
+                continue        # non-blocking assignment in statement position
+            bad.append(x)
+    return bad
 
 
 def cosim_behavioural(obj, hw, ins, outs, state_names, vectors, sequential, text=None, as_instance=False, watch=(), power_up=False):
@@ -400,6 +533,11 @@ def cosim_behavioural(obj, hw, ins, outs, state_names, vectors, sequential, text
     if bad or top not in d.mods:
         res.status = 'invalid_text'
         res.detail = repr(bad[0]) if bad else 'module %s not emitted' % top
+        return res
+    res.unassigned = never_assigned_reads(text)
+    if res.unassigned:
+        res.status = 'invalid_text'
+        res.detail = 'integer %s is read in the emitted module but never assigned (no Python value corresponds to it)' % ', '.join(res.unassigned)
         return res
     # unsized decimal literals beyond 32 bits: judged only where the two extreme readings of the standard agree (see cosim.cosim)
     import re
@@ -652,6 +790,8 @@ def corpus_texts(run=None):
 # --------------------------------------------------------------------------- judging
 
 def classify(prog_cls, kind, res):
+    if res.status == 'invalid_text' and res.unassigned:
+        return 'reads_never_assigned_variable', dict(program_class=prog_cls, kind=kind)
     if res.status == 'invalid_text':
         d = res.diags[0] if res.diags else None
         code = d.code if d is not None else 'missing_module'
@@ -663,6 +803,8 @@ def classify(prog_cls, kind, res):
                 ('inject:ternary_rhs', 'parse:reserved_word'): 'ternary_emitted_as_statement',
                 ('inject:ternary_nested', 'parse:reserved_word'): 'ternary_emitted_as_statement',
                 ('inject:str', 'undeclared_identifier'): 'string_constant_accepted',
+                ('inject:docstring', 'parse:syntax'): 'string_constant_accepted',
+                ('inject:ternary_cond', 'parse:reserved_word'): 'ternary_emitted_as_statement',
                 ('inject:float', 'parse:unsupported'): 'float_constant_accepted'}.get((prog_cls, code))
         if mech:
             return mech, dict(program_class=prog_cls, code=code)
@@ -701,12 +843,16 @@ def judge(run, label, prog_cls, kind, res, case, src_hash):
                         detail=res.detail, source=case.get('source', '')[:700]))
 
 
-def run_generated(run, d, idx, seed, n_cycles):
+def run_generated(run, d, idx, seed, n_cycles, forced=None):
     import py4hw
-    rnd = rng(seed, 'c02-gen', idx)
+    rnd = rng(seed, 'c02-gen', idx) if forced is None else rng(seed, 'c02-construct', idx)
     kind = 'clock' if rnd.random() < 0.7 else 'propagate'
     r = rnd.random()
-    if r < 0.6:
+    if forced is not None:
+        inject, cls = forced, 'inject:' + forced
+        if inject.startswith('match_'):
+            kind = 'clock'
+    elif r < 0.6:
         cls, inject = 'main', None
     elif r < 0.66:
         cls, inject = 'attr_name', None
@@ -715,8 +861,8 @@ def run_generated(run, d, idx, seed, n_cycles):
         cls = 'inject:' + inject
         if inject in ('match_guard', 'match_or'):
             kind = 'clock'
-    g = PGen(rnd, kind, cls, inject)
-    name = 'G%d_%d' % (os.getpid(), idx)
+    g = PGen(rnd, kind, cls, inject, tail=(forced is not None and idx % 4 != 3))
+    name = ('G%d_%d' if forced is None else 'K%d_%d') % (os.getpid(), idx)
     try:
         prog = g.build(name)
         src = prog.source()
@@ -739,6 +885,14 @@ def run_generated(run, d, idx, seed, n_cycles):
         run.count('construct_error')
         return
     vecs = vectors_for(ins, rnd, n_cycles, g.small)
+    if g.match_info is not None:
+        # steer the subject of the injected match to every listed value and to values outside the list (default / capture branch)
+        mi_name, listed = g.match_info
+        mw = dict(prog.ins)[mi_name]
+        pool = list(listed) + [v for v in (0, 3, 5, 6, 7, 9, (1 << mw) - 1) if v not in listed and v < (1 << mw)]
+        for v in vecs:
+            if rnd.random() < 0.6:
+                v[mi_name] = rnd.choice(pool)
     if cls == 'main' and prog.consts and idx % 3 == 0:
         # two instances of one class with different constructor constants, transpiled by one generator inside one parent:
         # each instance must get the text (and behaviour) of its own constants
@@ -796,6 +950,17 @@ def run_generated(run, d, idx, seed, n_cycles):
         except BaseException:
             text = None
     res = cosim_behavioural(obj, hw, ins, outs, [n for n, _ in prog.states], vecs, kind == 'clock', text=text, power_up=(cls == 'main'))
+    if forced is not None:
+        run.count('construct_programs')
+        st = 'refused' if res.status == 'refused' else 'accepted' if res.status in ('compared', 'invalid_text', 'indeterminate') else res.status
+        br = run.extra.setdefault('construct_corpus', {})
+        br['%s:%s' % (forced, st)] = br.get('%s:%s' % (forced, st), 0) + 1
+        if res.status == 'compared':
+            run.count('construct_programs_compared')
+            if g.match_info is not None:
+                mi_name, listed = g.match_info
+                run.count('match_family_steps_on_listed_value', sum(1 for v in vecs[:res.steps] if v[mi_name] in listed))
+                run.count('match_family_steps_on_unlisted_value', sum(1 for v in vecs[:res.steps] if v[mi_name] not in listed))
     judge(run, name, cls, kind, res, case, stable_hash(src.replace(name, 'G')))
 
 
@@ -1051,6 +1216,17 @@ def run_check(run, tier, seed, shard):
             if time.time() > deadline or run.too_many:
                 break
             run_generated(run, d, idx, seed, cyc)
+        # (f) the systematic construct corpus: every construct several times (own random stream), mostly as the last statement of the body
+        n2 = len(CONSTRUCTS) * (6 if quick else 400)
+        for idx in shard_slice(range(n2), shard):
+            if time.time() > deadline or run.too_many:
+                break
+            run_generated(run, d, idx, seed, cyc, forced=CONSTRUCTS[idx % len(CONSTRUCTS)])
+        if run.counters.get('construct_programs', 0) and not run.too_many:
+            if run.counters.get('construct_programs_compared', 0) == 0:
+                run.inconclusive.append('construct corpus: no accepted construct was co-simulated')
+            if run.counters.get('match_family_steps_on_unlisted_value', 0) == 0 or run.counters.get('match_family_steps_on_listed_value', 0) == 0:
+                run.inconclusive.append('construct corpus: the accepted match programs never reached a listed / an unlisted subject value')
     run.extra['programs'] = run.counters.get('programs_compared', 0)
     run.extra['disagreements_checked'] = run.counters.get('steps_in_domain', 0)
     if run.counters.get('programs_compared', 0) == 0:
